@@ -103,7 +103,8 @@ Fin(s, t) == [s EXCEPT !.th[t] = [IdleTh EXCEPT !.i = s.th[t].i + 1]]
 (* whether this was the first step of a call (begin), and when a call returned      *)
 (* (fin) the Lamport time its message carries (local calls: read from the queued     *)
 (* broadcast; incoming: the time in the message).                                    *)
-(*   processed = the call handling the event / query has returned                    *)
+(*   processed = the event / query has been delivered to the application (seen on    *)
+(*   EventCh) or the call handling it has returned, whichever is observed first      *)
 MonNew(prog) ==
   [ bad |-> {},                                 \* <<clause, tags at the time of the violation>>
     top |-> FALSE,                              \* a message with time MAX has been processed or begun (sticky)
@@ -121,6 +122,12 @@ MonBegin(m, prog, t, i) ==
   ELSE [ m EXCEPT !.beg[t] = m.proc[KindOf(o)],
                   !.infl[t] = <<KindOf(o), i>>,
                   !.ovl = @ \cup { {<<t, i>>, <<u, m.infl[u][2]>>} : u \in { v \in DOMAIN prog : v # t /\ m.infl[v][1] = KindOf(o) } } ]
+
+\* deliveries <<kind, lt, x>> observed on EventCh: the node has processed these
+RECURSIVE MonDeliver(_, _)
+MonDeliver(m, dl) ==
+  IF dl = <<>> THEN m
+  ELSE MonDeliver([m EXCEPT !.proc[Head(dl)[1]] = MaxT(@, Head(dl)[2]), !.top = @ \/ Head(dl)[2] = MAX], Tail(dl))
 
 MonFin(m, prog, t, i, lt) ==
   LET o == prog[t][i + 1]
@@ -147,7 +154,7 @@ Init == /\ \E p \in Progs : S = InitS(p) /\ M = MonNew(p.th)
 StepAct(t) ==
   \E s2 \in Acts(S, t) :
      /\ S' = s2
-     /\ M' = IF S.th[t].pc = "idle" THEN MonBegin(M, S.prog, t, S.th[t].i) ELSE M
+     /\ M' = MonDeliver(IF S.th[t].pc = "idle" THEN MonBegin(M, S.prog, t, S.th[t].i) ELSE M, s2.dl)
      /\ last' = [a |-> "step", t |-> t]
 
 FinAct(t) ==
